@@ -33,6 +33,10 @@ type kStep struct {
 	Env string `json:"env"`
 	// Mode: bind | serve | listen | rebind (Bind twice, then DoListen)
 	Mode string `json:"mode"`
+	// Successor (serve / listen on a filesystem path): as soon as Shutdown has
+	// returned - the serving call may still be winding down - another service
+	// binds the same address and is served
+	Successor bool `json:"successor,omitempty"`
 }
 
 type kHistory struct {
@@ -134,7 +138,7 @@ func kGen(seed int64, dir string) kHistory {
 					name = "p" + name
 				}
 			}
-			form := pick("abs", "abs", "rel", "dotrel", "sub")
+			form := pick("abs", "abs", "rel", "dotrel", "sub", "dotdot")
 			switch form {
 			case "abs":
 				st.Addr = "unix:" + filepath.Join(dir, name)
@@ -142,6 +146,10 @@ func kGen(seed int64, dir string) kHistory {
 				st.Addr = "unix:" + name
 			case "dotrel":
 				st.Addr = "unix:./" + name
+			case "dotdot":
+				// ".." after an existing directory, a missing one, and a symbolic link
+				// (where it does not lead back to the working directory)
+				st.Addr = "unix:" + pick("sub/../", "missing/../", "link/../", "./sub/../") + name
 			default:
 				st.Addr = "unix:sub/" + name
 			}
@@ -149,6 +157,12 @@ func kGen(seed int64, dir string) kHistory {
 			st.Env = pick("none", "none", "stale", "stale", "file", "dir", "fulldir", "noparent", "foreign")
 			if form == "sub" && st.Env == "none" {
 				st.Env = pick("none", "noparent")
+			}
+			if form == "dotdot" {
+				st.Env = pick("none", "none", "stale")
+			}
+			if (st.Mode == "serve" || st.Mode == "listen") && (st.Env == "none" || st.Env == "stale") && r.Intn(3) == 0 {
+				st.Successor = true
 			}
 		case 4, 5:
 			st.Addr = fmt.Sprintf("unix:@verif-c19-%d-%d%s", os.Getpid(), kCounter, tail)
@@ -224,6 +238,10 @@ func pathOf(cl kClass, dir string) string {
 	if filepath.IsAbs(cl.addr) {
 		return cl.addr
 	}
+	// the kernel resolves ".." after following links: link -> real/inner, so link/.. is real
+	if strings.HasPrefix(cl.addr, "link/../") {
+		return filepath.Join(dir, "real", strings.TrimPrefix(cl.addr, "link/../"))
+	}
 	return filepath.Join(dir, cl.addr)
 }
 
@@ -256,6 +274,14 @@ func (k *kRunner) step(i int, st kStep) bool {
 	}
 	if p != "" {
 		os.MkdirAll(filepath.Dir(p), 0o755)
+		if strings.Contains(cl.addr, "/../") {
+			os.MkdirAll(filepath.Join(k.dir, "sub"), 0o755)
+			os.MkdirAll(filepath.Join(k.dir, "real", "inner"), 0o755)
+			os.Symlink(filepath.Join("real", "inner"), filepath.Join(k.dir, "link"))
+			if strings.Contains(cl.addr, "missing/../") {
+				must = "" // the kernel refuses the path: no such directory
+			}
+		}
 		switch st.Env {
 		case "stale":
 			// a crashed service left its socket behind
@@ -421,6 +447,22 @@ func (k *kRunner) step(i int, st kStep) bool {
 	if _, ok := k.guarded(i, "Shutdown", func() error { k.svc.Shutdown(); return nil }); !ok {
 		return false
 	}
+	// ---- a successor binds the address while the first serving call winds down
+	var succ *varlink.Service
+	succBound := false
+	if st.Successor && serving && bound && p != "" && cl.kind == "valid" && foreign == nil {
+		succ, _ = varlink.NewService("vendor", "product-c19-successor", "1", "url")
+		err, ok := k.guarded(i, "successor Bind", func() error { return succ.Bind(ctx, st.Addr) })
+		if !ok {
+			return false
+		}
+		k.count["successor.binds"]++
+		if err != nil {
+			k.fail(i, "successor", "bind-after-shutdown-failed", "Shutdown of the first service has returned, but another service cannot bind %q: %v", st.Addr, err)
+		} else {
+			succBound = true
+		}
+	}
 	if serving {
 		select {
 		case err := <-served:
@@ -432,6 +474,51 @@ func (k *kRunner) step(i int, st kStep) bool {
 			k.fail(i, "returns", "serving call did not return after Shutdown", "after 20 s")
 			k.hung = true
 			return false
+		}
+	}
+	if succBound {
+		// the first serving call has returned by now: the successor's socket is its own
+		if !isSocket(p) {
+			k.fail(i, "successor", "socket-removed-by-predecessor", "a second service bound %q after the first one's Shutdown had returned; when the first serving call returned, the second one's socket %s was gone", st.Addr, p)
+		} else {
+			sdone := make(chan error, 1)
+			go func() { sdone <- succ.DoListen(ctx, 0) }()
+			err, ok := k.guarded(i, "NewConnection+GetInfo (successor)", func() error {
+				cctx, cancel := context.WithTimeout(ctx, 15*time.Second)
+				defer cancel()
+				c, err := varlink.NewConnection(cctx, st.Addr)
+				if err != nil {
+					return fmt.Errorf("NewConnection: %v", err)
+				}
+				defer c.Close()
+				var product string
+				if err := c.GetInfo(cctx, nil, &product, nil, nil, nil); err != nil {
+					return fmt.Errorf("GetInfo: %v", err)
+				}
+				if product != "product-c19-successor" {
+					return fmt.Errorf("another service answered: %q", product)
+				}
+				return nil
+			})
+			if !ok {
+				return false
+			}
+			if err != nil {
+				k.fail(i, "successor", "client-does-not-reach-successor", "%q: %v", st.Addr, err)
+			}
+			if _, ok := k.guarded(i, "Shutdown (successor)", func() error { succ.Shutdown(); return nil }); !ok {
+				return false
+			}
+			select {
+			case <-sdone:
+			case <-time.After(20 * time.Second):
+				k.fail(i, "returns", "serving call of the successor did not return after Shutdown", "after 20 s")
+				k.hung = true
+				return false
+			}
+		}
+		if succ != nil {
+			succ.Shutdown()
 		}
 	}
 	if bound && p != "" && foreign == nil && exists(p) && isSocket(p) {
